@@ -72,6 +72,25 @@ PLANS["C13"] = {
     "thorough": [J("hostilefull", "f=1", 600), J("hostileany", "f=1,s=1", 900)],
 }
 
+PLANS["C09"] = {
+    "quick": [J("c09-requests", "quick", 120, test="TestE3"), J("c09-sizes", "quick", 120, test="TestE3", shards=4), J("c09-connect", "quick", 120, test="TestE3")],
+    "thorough": [J("c09-requests", "thorough", 600, test="TestE3"), J("c09-sizes", "thorough", 900, test="TestE3", shards=4), J("c09-connect", "thorough", 600, test="TestE3")],
+}
+
+PLANS["C15"] = {
+    "quick": [J("c15-codec", "quick", 120, test="TestE3")],
+    "thorough": [J("c15-codec", "thorough", 900, test="TestE3")],
+}
+PLANS["C20"] = {
+    "quick": [J("c20-doubles", "quick", 120, test="TestE3")],
+    "thorough": [J("c20-doubles", "thorough", 600, test="TestE3")],
+}
+
+PLANS["C14"] = {
+    "quick": [J("c14-classifiers", "quick", 120, test="TestE3"), J("errclass", "p=1,f=1,sel=1", 60), J("reqresp", "p=1,f=1,sel=1", 30), J("hostile", "f=1", 30)],
+    "thorough": [J("c14-classifiers", "thorough", 600, test="TestE3"), J("errclass", "p=2,f=2,s=1,sel=1", 600), J("reqresp", "p=2,f=2,sel=1", 400), J("shutdown2", "p=1,f=1,s=1,sel=1", 300)],
+}
+
 LEVELS = {}
 
 ASSUMPTIONS = {
